@@ -249,6 +249,39 @@ func gen(thorough bool) []cas {
 				add(fmt.Sprintf("field%d-bitflip", fi), join(g))
 			}
 		}
+		// a digest that IS the schema's function of the right password, but computed for a
+		// different output length than the configured one (argon2id) / from another scrypt
+		// key length: the stored digest must equal the digest under the CONFIGURED parameters
+		for _, ol := range []uint32{1, 2, 4, 8, 15, 17, 31, 33, 64} {
+			sp := specs[set]
+			var alt []byte
+			if sp.format == "argon2id" {
+				if ol == sp.l {
+					continue
+				}
+				alt = argon2.IDKey([]byte(pw), salt, sp.t, sp.m, sp.p, ol)
+			} else {
+				if ol == 32 {
+					continue
+				}
+				k, _ := scrypt.Key([]byte(pw), salt, 1<<sp.cost, sp.r, sp.pp, int(ol))
+				key, _ := base64.StdEncoding.DecodeString(verifx.HmacKeyB64)
+				hm := hmac.New(sha256.New, key)
+				hm.Write(k)
+				alt = hm.Sum(nil)
+			}
+			g := append([]string{}, f...)
+			g[4] = base64.URLEncoding.EncodeToString(alt)
+			add(fmt.Sprintf("digest-of-other-length-%d", ol), join(g))
+			// and with other cost parameters (a digest under another parameter set's numbers)
+		}
+		for other, osp := range specs {
+			if other != set && osp.format == specs[set].format {
+				g := append([]string{}, f...)
+				g[4] = base64.URLEncoding.EncodeToString(digest(osp, pw, salt))
+				add(fmt.Sprintf("digest-under-params-of-set-%d", other), join(g))
+			}
+		}
 		// digest of the right length but all zero / digest equal to salt
 		g := append([]string{}, f...)
 		raw, _ := base64.URLEncoding.DecodeString(f[4])
